@@ -10,6 +10,7 @@ mod native {
     thread_local! {
         pub static QUEUE: RefCell<VecDeque<Vec<u8>>> = RefCell::new(VecDeque::new());
         pub static COVERS: RefCell<Vec<String>> = RefCell::new(Vec::new());
+        pub static FILL: std::cell::Cell<Option<u8>> = std::cell::Cell::new(None);
     }
 }
 
@@ -38,6 +39,13 @@ pub fn any<T: Plain>() -> T {
         let v = native::QUEUE.with(|q| q.borrow_mut().pop_front());
         match v {
             Some(v) => acc.extend_from_slice(&v),
+            None if native::FILL.with(|f| f.get()).is_some() => {
+                // fill mode (used when the model checker printed no input vector): constant bytes
+                let b = native::FILL.with(|f| f.get()).unwrap();
+                while acc.len() < need {
+                    acc.push(b);
+                }
+            }
             None => {
                 // A replay that runs out of values took a different path than
                 // the solver's trace: not a reproduction.
@@ -80,12 +88,68 @@ pub fn load_queue(vals: Vec<Vec<u8>>) {
     native::QUEUE.with(|q| *q.borrow_mut() = vals.into());
 }
 #[cfg(not(kani))]
+pub fn set_fill(b: u8) {
+    native::FILL.with(|f| f.set(Some(b)));
+}
+#[cfg(not(kani))]
 pub fn note_cover(s: &str) {
     native::COVERS.with(|c| c.borrow_mut().push(s.to_string()));
 }
 #[cfg(not(kani))]
 pub fn covers() -> Vec<String> {
     native::COVERS.with(|c| c.borrow().clone())
+}
+
+/// Native allocation tracker (installed as the replay binary's global allocator): remembers the
+/// layout every live block was allocated with and flags a deallocation with a different layout.
+#[cfg(not(kani))]
+pub mod alloc_track {
+    use std::alloc::{GlobalAlloc, Layout, System};
+    use std::sync::atomic::{AtomicUsize, Ordering::SeqCst};
+    const N: usize = 256;
+    const Z: AtomicUsize = AtomicUsize::new(0);
+    static PTR: [AtomicUsize; N] = [Z; N];
+    static SIZE: [AtomicUsize; N] = [Z; N];
+    static ALIGN: [AtomicUsize; N] = [Z; N];
+    pub static MISMATCH: AtomicUsize = AtomicUsize::new(0);
+    pub struct Tracker;
+    unsafe impl GlobalAlloc for Tracker {
+        unsafe fn alloc(&self, l: Layout) -> *mut u8 {
+            let p = System.alloc(l);
+            for i in 0..N {
+                if PTR[i].compare_exchange(0, p as usize, SeqCst, SeqCst).is_ok() {
+                    SIZE[i].store(l.size(), SeqCst);
+                    ALIGN[i].store(l.align(), SeqCst);
+                    break;
+                }
+            }
+            p
+        }
+        unsafe fn dealloc(&self, p: *mut u8, l: Layout) {
+            for i in 0..N {
+                if PTR[i].load(SeqCst) == p as usize {
+                    if SIZE[i].load(SeqCst) != l.size() || ALIGN[i].load(SeqCst) != l.align() {
+                        MISMATCH.store(1, SeqCst);
+                    }
+                    PTR[i].store(0, SeqCst);
+                    break;
+                }
+            }
+            System.dealloc(p, l)
+        }
+    }
+    /// (size, align) the live block at `p` was allocated with
+    pub fn layout_of(p: usize) -> Option<(usize, usize)> {
+        for i in 0..N {
+            if PTR[i].load(SeqCst) == p {
+                return Some((SIZE[i].load(SeqCst), ALIGN[i].load(SeqCst)));
+            }
+        }
+        None
+    }
+    pub fn mismatch_seen() -> bool {
+        MISMATCH.load(SeqCst) != 0
+    }
 }
 
 /// Vacuity witness: must be reported SATISFIED by the model checker.
